@@ -429,7 +429,7 @@ func runChains(c *vlib.Ctx, st *stats, cov *chainCov, o judgeOpts) (behaviours, 
 	rngs := map[*chain.Sim]*rand.Rand{}
 	v2budget := c.Pick(36, 200)
 	extend := c.Pick(64, 200)
-	opts := chain.RunOpts{Num: c.Pick(40, 400), Depth: 56, Timeout: 20 * time.Minute,
+	opts := chain.RunOpts{Num: c.Pick(36, 400), Depth: 56, Timeout: 20 * time.Minute,
 		KeyOf: func(m chain.Mismatch) string { return "ledger/" + m.Kind + "/" + m.Tag },
 		NewSim: func(sim *chain.Sim) {
 			mu.Lock()
